@@ -1054,10 +1054,21 @@ fn serialise_option<T>(option: DhcpOption, bytes: &[T], v: &mut Vec<u8>)
 where
     T: Serialise,
 {
-    option.serialise(v);
-    (bytes.len() as u8).serialise(v);
-    for i in bytes.iter() {
-        i.serialise(v);
+    /* RFC3396: a value longer than 255 octets is split over several instances of the option,
+     * which the receiver concatenates.  An empty value is still one (empty) instance.
+     */
+    let mut rest = bytes;
+    loop {
+        let (chunk, tail) = rest.split_at(std::cmp::min(rest.len(), 255));
+        option.serialise(v);
+        (chunk.len() as u8).serialise(v);
+        for i in chunk.iter() {
+            i.serialise(v);
+        }
+        rest = tail;
+        if rest.is_empty() {
+            break;
+        }
     }
 }
 
